@@ -17,6 +17,12 @@
 // (the model says whose bytes they must be: an error constant, the full result
 // of execution b, or its RETRY_UNCACHED_REP reduction).
 //
+// NFSv4.0 histories (h40_test.go) do the same per open-owner / lock-owner: OPEN
+// (by name, parked before the directory lock, or CLAIM_PREVIOUS, parked in the
+// file), OPEN_CONFIRM, OPEN_DOWNGRADE, CLOSE, LOCK, LOCKU with retransmissions,
+// reused and out-of-order seqids, duplicates waiting for a running OPEN.
+// A go/ast fact check ties `transactionShouldComplete` to the model's table.
+//
 // Monitor (implementation only, no model): (1) a retransmission of the most
 // recent request of a slot/owner gets the original's reply byte for byte (4.1:
 // or the RETRY_UNCACHED_REP form if it did not ask for caching) and never
@@ -361,7 +367,7 @@ func TestHarness(t *testing.T) {
 		handle(h, out)
 	}
 
-	n := 700
+	n := 1200
 	if o.Tier == "thorough" {
 		n = 6000
 	}
